@@ -1285,7 +1285,21 @@ func ruleJSONEnd(c *Ctx) {
 			}
 			n++
 			comma, nl := false, false
-			conds, truths := controllingConds(b)
+			conds0, truths0 := controllingConds(b)
+			// a condition held in a boolean (c := a && b; if c …) stands for its conjuncts
+			var conds []ssa.Value
+			var truths []bool
+			for i, cd := range conds0 {
+				if truths0[i] {
+					for _, e := range expandTrueConds(cd, 0) {
+						conds = append(conds, e)
+						truths = append(truths, true)
+					}
+				} else {
+					conds = append(conds, cd)
+					truths = append(truths, false)
+				}
+			}
 			for i, cd := range conds {
 				bo, ok := cd.(*ssa.BinOp)
 				if !ok || bo.Op != token.EQL || !truths[i] {
@@ -1816,4 +1830,47 @@ func ruleMarshalViaCodec(c *Ctx) {
 		c.Oblige("X.marshal.viacodec", false, f.Pos(), name, "success return", "none found", nil)
 	}
 	c.Floor("X.marshal.viacodec", 1)
+}
+
+// expandTrueConds: the comparisons that hold when the boolean v is true. A
+// comparison is itself; a φ of booleans (from a && b, or from "c = false" /
+// "c = a && b" on different paths) is true only through its edges that are not
+// the constant false - when there is exactly one such edge, v stands for that
+// edge's value together with the conditions that lead to the edge.
+func expandTrueConds(v ssa.Value, depth int) []ssa.Value {
+	if depth > 6 {
+		return []ssa.Value{v}
+	}
+	ph, ok := v.(*ssa.Phi)
+	if !ok {
+		return []ssa.Value{v}
+	}
+	cand := -1
+	for i, e := range ph.Edges {
+		if k, isK := e.(*ssa.Const); isK && k.Value != nil && k.Value.Kind() == constant.Bool && !constant.BoolVal(k.Value) {
+			continue
+		}
+		if cand >= 0 {
+			return []ssa.Value{v}
+		}
+		cand = i
+	}
+	if cand < 0 {
+		return []ssa.Value{v}
+	}
+	out := expandTrueConds(ph.Edges[cand], depth+1)
+	pr := ph.Block().Preds[cand]
+	cs, ts := controllingConds(pr)
+	// the predecessor's own branch decides the edge too
+	if iff, ok := pr.Instrs[len(pr.Instrs)-1].(*ssa.If); ok {
+		if pr.Succs[0] == ph.Block() && pr.Succs[1] != ph.Block() {
+			out = append(out, expandTrueConds(iff.Cond, depth+1)...)
+		}
+	}
+	for i, c := range cs {
+		if ts[i] {
+			out = append(out, expandTrueConds(c, depth+1)...)
+		}
+	}
+	return out
 }
